@@ -37,6 +37,8 @@ var Shapes = map[string]ShapeInfo{
 	// c3r re-commits an internal variable that an earlier commitment already holds (the builder
 	// must commit to that commitment instead) after another commitment wire precedes it
 	"c3r": {"c3r", 2, 2, 3, []bool{true, true}},
+	// pub2 has no secret input at all: X0*X0 == X1
+	"pub2": {"pub2", 2, 0, 0, []bool{true, true}},
 }
 
 func init() {
@@ -69,6 +71,11 @@ func NewShape(kind string) *ShapeCircuit {
 func AssignShape(kind string, variant int) *ShapeCircuit {
 	c := NewShape(kind)
 	y0 := 3 + variant
+	if len(c.Y) == 0 {
+		c.X[0] = y0
+		c.X[1] = y0 * y0
+		return c
+	}
 	c.Y[0] = y0
 	c.Y[1] = 5 + 2*variant
 	c.X[0] = y0 * y0
@@ -84,6 +91,10 @@ func (c *ShapeCircuit) Define(api frontend.API) error {
 	if len(kind) > 4 && kind[len(kind)-4:] == "_alt" {
 		alt = true
 		kind = kind[:len(kind)-4]
+	}
+	if kind == "pub2" {
+		api.AssertIsEqual(api.Mul(c.X[0], c.X[0]), c.X[1])
+		return nil
 	}
 	sq := api.Mul(c.Y[0], c.Y[0])
 	if alt {
